@@ -88,6 +88,19 @@ fn cmd_sql(stmts: &[String]) {
     if std::env::var("POLICY").ok().as_deref() == Some("random") {
         sc.sim.policy = Policy::Random;
     }
+    // ad-hoc probing: DISK_DIR=<real dir> loads its files (flat) onto the simulated disk
+    if let Ok(dir) = std::env::var("DISK_DIR") {
+        if let Ok(rd) = std::fs::read_dir(&dir) {
+            for e in rd.flatten() {
+                if let (Some(name), Ok(bytes)) = (e.file_name().to_str().map(|s| s.to_string()), std::fs::read(e.path())) {
+                    sc.disk.put(&name, bytes);
+                }
+            }
+        }
+    }
+    if let Ok(g) = std::env::var("GRAN") {
+        sc.fs.gran = simfs::Gran::Fixed(g.parse().unwrap_or(1));
+    }
     let rep = run_scenario(&sc, Chooser::generating(rng::Rng::new(seed)), None);
     println!("end={:?} steps={} trace={:x}", rep.end, rep.stats.steps, rep.trace);
     for l in &rep.parked_desc {
@@ -110,6 +123,15 @@ fn cmd_sql(stmts: &[String]) {
 }
 
 pub fn finish(cfg: &CampaignCfg, check: &dyn campaign::Check, extra: serde_json::Value) -> i32 {
+    // VERIF_RUNS caps the number of runs (used when trying seeded mutants)
+    let capped;
+    let cfg = match std::env::var("VERIF_RUNS").ok().and_then(|s| s.parse::<u64>().ok()) {
+        Some(n) => {
+            capped = CampaignCfg { runs: n.min(cfg.runs), property: cfg.property.clone(), tier: cfg.tier.clone(), replay_dir: cfg.replay_dir.clone(), known_path: cfg.known_path.clone(), evidence_path: cfg.evidence_path.clone(), level: cfg.level.clone(), rule: cfg.rule.clone(), assumptions: cfg.assumptions.clone(), components_real: cfg.components_real.clone(), components_stub: cfg.components_stub.clone(), ..*cfg };
+            &capped
+        }
+        None => cfg,
+    };
     let res = run_campaign(cfg, check);
     if let Err(e) = write_evidence(cfg, &res, extra) {
         eprintln!("harness error: cannot write evidence: {e}");
